@@ -866,6 +866,26 @@ def c15e(F, R):
                 R.ok(f"{name}|join", detail=f"{name}: `{ekey(m['recv'])}.join({path_p})` where `{rroot}` derives from the entry stored under the parent id", where=loc(m))
             else:
                 R.bad(f"{name}|join", f"{name}::import_file joins the include path to `{ekey(m['recv'])}`, which does not derive from the parent file's stored location", loc(m))
+            # the joined path is what is opened: on its way it is only converted (to_str / to_owned / `?`), or resolved by the file
+            # system itself (canonicalize) - never rewritten as text (`a/../b` -> `b` is a different file when `a` is a symbolic link)
+            pm_ = parent_map(body)
+            x = m
+            rewriters = []
+            for _ in range(12):
+                par = pm_.get(id(x))
+                if par is None or par.get("k") in ("Let", "Block", "If", "Match") and par.get("src") != "TryDesugar" and par.get("k") != "Match":
+                    break
+                if par.get("k") == "Call" and any(a_ is x or peel(a_) is x for a_ in par.get("args", [])):
+                    cn = short(callee_of(par) or declared_callee(par) or "?")
+                    if cn not in ("branch", "from_residual", "Some", "Ok", "from", "canonicalize", "new", "from_str", "into") and not (callee_of(par) or "").startswith("core::"):
+                        rewriters.append((cn, par))
+                if par.get("k") == "MethodCall" and par["recv"] is x and par["name"] not in ("to_str", "to_owned", "to_string", "ok_or", "ok_or_else", "ok", "clone", "as_path", "to_path_buf", "canonicalize", "map_err", "unwrap_or_default", "as_os_str", "to_string_lossy", "into_owned", "display", "unwrap", "expect", "unwrap_or", "unwrap_or_else", "as_str", "as_ref", "borrow"):
+                    rewriters.append((par["name"], par))
+                x = par
+            if rewriters:
+                R.bad(f"{name}|joined-path-rewritten", f"{name}::import_file passes the joined include path through `{rewriters[0][0]}` before opening it: a textual clean-up of `..` does not resolve like the file system (through a symbolic link `lib/../common.s` is not `common.s`), so another file - or none - is read", loc(rewriters[0][1]))
+            else:
+                R.ok(f"{name}|joined-path-unchanged", detail="the joined path is only converted, or resolved by the file system", where=loc(m))
 
 
 # ============================================================================ C09.b / C09.c
@@ -1708,6 +1728,7 @@ def c07m(F, R):
             R.bad(f"macro-close|{d}", f"the macro-skipping loop stops on {stop_vs} only, and `{d}` (how RARS closes a macro) {'maps to ' + v if v else 'is not a known directive'}: after `.macro .. {d}` every following line of the file is discarded without a diagnostic", loc(stops[0][1]))
 
 
+@rule("C17", "C17.k.value-lists-take-numbers-only", floor=1)
 @rule("C07", "C07.n.lists-that-cross-lines-take-numbers-only", floor=1)
 def c07n(F, R):
     """a decoder loop that steps over newline tokens (a value list continued on the following lines) may absorb nothing but numbers: a token that could begin a statement of its own - a name, a register, a string - must end the list, or a following line made of names (`halt now`, a misspelt mnemonic) disappears into the list without a diagnostic"""
